@@ -122,6 +122,8 @@ pub trait HashObj: Send {
     fn store_str(&self, out: &mut [u8], prefix: Prefix) -> Result<usize, OErr>;
     /// `format!("{}", h)`
     fn display(&self) -> String;
+    /// `format!` with width / fill / alignment / precision / sign / alternate flags
+    fn display_flags(&self) -> Vec<(&'static str, String)>;
     /// `h.to_string()`
     fn to_string_(&self) -> String;
     fn checksum(&self) -> Vec<u8>;
@@ -299,6 +301,9 @@ pub trait GlobalApi: Sync {
     fn hash_stream_normal(&self, r: &mut dyn Read) -> Option<Result<H, StreamErr>>;
     fn hash_file_normal(&self, p: &Path) -> Option<Result<H, StreamErr>>;
     fn gerr_category(&self, e: GErr) -> GCat;
+    /// An `io::Error` of the given kind whose payload is one of the crate's OWN `GeneratorError`
+    /// values (what a reader that wraps another hashing step might report).
+    fn io_error_with_generator_payload(&self, kind: std::io::ErrorKind, which: u8) -> std::io::Error;
     /// Display strings of all error values (for transcripts).
     fn error_displays(&self) -> Vec<String>;
     /// Number of allocator calls made by the current thread so far.
